@@ -1,21 +1,35 @@
 #!/bin/bash
-# usage: [FEATURES=a,b] tools/seedverify.sh <ID> <n>   -- independently confirm a seeded change in its scratch worktree
+# usage: [FEATURES=a,b] [TESTUTIL=1] tools/seedverify.sh <ID> <n>   -- independently confirm a seeded change in its scratch worktree
+# TESTUTIL=1 adds tokio's "test-util" feature to the dev-dependency (demonstrations that use a paused clock); the 73-test
+# suite is run on the pristine Cargo.toml without the demonstration.
 ID=$1; N=$2
 WT=/tmp/wt/$ID; S=/tmp/seed/$ID
 cd $WT || exit 2
-git checkout -q -- . ; git clean -fdq tests src Cargo.toml 2>/dev/null
-rm -f tests/seeded_demo*.rs
+git checkout -q -- . ; git clean -fdq tests src 2>/dev/null
+rm -f tests/seeded_demo*.rs tests/seeded-demo*.rs
 cp $S/demo$N.rs tests/seeded_demo$N.rs
+if [ -n "$TESTUTIL" ]; then
+  python3 - <<'PY'
+import re
+s=open('Cargo.toml').read()
+i=s.index('[dev-dependencies]')
+head,tail=s[:i],s[i:]
+tail=re.sub(r'(?m)^tokio = \{[^}]*\}', 'tokio = { version = "1", features = ["full", "test-util"] }', tail, count=1)
+if 'test-util' not in tail:
+    tail=tail.replace('[dev-dependencies]\n','[dev-dependencies]\ntokio = { version = "1", features = ["full", "test-util"] }\n',1)
+open('Cargo.toml','w').write(head+tail)
+PY
+fi
 echo "--- demo WITHOUT patch (expect pass)"
 cargo test --offline ${FEATURES:+--features $FEATURES} --test seeded_demo$N 2>&1 | grep -E "^test result|error\[|error:|FAILED|panicked" | head -5
 git apply $S/patch$N.diff || { echo "PATCH DOES NOT APPLY"; exit 2; }
+echo "--- demo WITH patch (expect failure)"
+cargo test --offline ${FEATURES:+--features $FEATURES} --test seeded_demo$N 2>&1 | grep -E "^test result|error\[|error:|FAILED|panicked" | head -5
+rm -f tests/seeded_demo$N.rs; git checkout -q -- Cargo.toml Cargo.lock 2>/dev/null
 echo "--- builds WITH patch"
 cargo build --offline 2>&1 | grep -E "^error|Finished" | tail -1
 cargo build --offline --features verif-hooks,tls,tls-ring,sni 2>&1 | grep -E "^error|Finished" | tail -1
-mv tests/seeded_demo$N.rs /tmp/seeded_demo_${ID}_${N}.rs
-echo "--- 73-test suite WITH patch"
+echo "--- 73-test suite WITH patch (pristine Cargo.toml, no demonstration)"
+git status --short | head -5
 cargo nextest run --workspace --no-fail-fast --offline 2>&1 | grep -E "Summary|FAIL " | head -5
-mv /tmp/seeded_demo_${ID}_${N}.rs tests/seeded_demo$N.rs
-echo "--- demo WITH patch (expect failure)"
-cargo test --offline ${FEATURES:+--features $FEATURES} --test seeded_demo$N 2>&1 | grep -E "^test result|error\[|error:|FAILED|panicked" | head -5
 git checkout -q -- . ; rm -f tests/seeded_demo*.rs
